@@ -404,3 +404,55 @@ def _pairing(ctx, repo) -> None:
                   f"updated position stored at {norm_text(back)}",
                   f"updated position stored at {norm_text(back)} but read from {norm_text(dpos.value)}",
                   key_detail="back")
+
+
+# ---- added after the seeded change C28-r3seed2: the probe is re-positioned by the *difference* of sub-pixel offsets
+_inner_run_c28 = run
+
+
+def run(ctx) -> None:  # noqa: F811
+    from ..cfg import DataFlow as _DF
+
+    ctx.rule("R-RESHIFT", "in every _overlap_projection the probe(s) carried over from the previous scan position are "
+             "re-positioned with fft_shift by a shift that depends on both the new and the old position (the difference "
+             "of their sub-pixel parts), and that call is unconditional — or its guard depends on both positions as "
+             "well.  A guard on the new position alone (`if any(fractional_position != 0)`) skips the shift when an "
+             "on-pixel position follows a sub-pixel one: the probe keeps the old offset, the true object and probe are "
+             "no longer a fixed point and the reported error is non-zero")
+    repo = ctx.repo
+    mod = repo.modules[MOD]
+    n = 0
+    for c in mod.classes.values():
+        f = c.own_method("_overlap_projection") or c.own_method("_warmup_overlap_projection")
+        for f in [m for name in ("_overlap_projection", "_warmup_overlap_projection", "_alternative_overlap_projection")
+                  for m in ([c.own_method(name)] if c.own_method(name) is not None else [])]:
+            ps = f.positional_params
+            pos = next((p for p in ps if p == "position"), None)
+            old = next((p for p in ps if p == "old_position"), None)
+            if pos is None or old is None:
+                continue
+            df = _DF(f.node)
+            calls = [k for k in walk_no_nested(f.node) if isinstance(k, ast.Call) and call_name(k) == "fft_shift"
+                     and len(k.args) >= 2]
+            for k in calls:
+                st = _stmt_of(f.node, k)
+                at = df.cfg.node_of(st).idx
+                sl = df.backward_slice(at, k.args[1])
+                if not ({pos, old} <= sl.params):
+                    continue  # some other shift (centring by the centre of mass ...)
+                n += 1
+                guards = [i for i in walk_no_nested(f.node) if isinstance(i, ast.If) and any(
+                    x is st for b in (i.body + i.orelse) for x in ast.walk(b))]
+                bad = None
+                for g in guards:
+                    gs = df.backward_slice(df.cfg.node_of(g).idx, g.test)
+                    touches = {pos, old} & gs.params
+                    if touches and touches != {pos, old}:
+                        bad = (g, sorted(touches))
+                ctx.check(bad is None, "R-RESHIFT", f"{f.qualname}:probe re-positioned", f.loc(k),
+                          f"`{norm_text(k)[:60]}` is applied for every pair of old and new position",
+                          f"`{norm_text(k)[:60]}` is skipped under `{norm_text(bad[0].test)[:50]}`, a condition on "
+                          f"{bad[1]} alone: when that position is on the pixel grid the probe keeps the sub-pixel "
+                          "offset of the previous position" if bad else "", key_detail="reshift")
+    ctx.require(n >= 2, f"R-RESHIFT found only {n} position-difference shifts")
+    _inner_run_c28(ctx)
